@@ -34,10 +34,11 @@ with `v ≤` the stored threshold — has its potential, if it beats the incumbe
 that the cache does not refuse at pop and whose upper bound is large enough*.  `processC_inv` / `processC_inv_any` (both
 fringes): preserved by `process_one_node` with `must_explore` answered by the cache, under the diagram contracts `CompC` (those
 of C01 weakened by "… or the cache consulted by the compilation prunes something at least as good, deeper", plus `theta` =
-Stage 1 and `fresh`) **and best-first pops** (`hbf`: the popped node has the largest upper bound, `MaxUB`, as in `CStep.hmax`
-of `Props/C01d.lean`); `init_cinvC`; `cinvC_forget` (Stage 3: `clear_layer` / `clear` only forget thresholds,
-`viewOf_clearLayer`); `caching_solver_optimal`.
-Here: `CacheRun dedup` (finite runs: best-first pop + `process_one_node`, or forgetting thresholds), `cacheRun_inv`,
+Stage 1 and `fresh`), **whatever node of the fringe is popped** (no hypothesis on the pop order: `enqueue_cutset` no longer
+caps the bounds of the cut-set nodes — repair of finding D14; before the repair these lemmas needed best-first pops);
+`init_cinvC`; `cinvC_forget` (Stage 3: `clear_layer` / `clear` only forget thresholds, `viewOf_clearLayer`);
+`caching_solver_optimal`.
+Here: `CacheRun dedup` (finite runs: pop of **any** node + `process_one_node`, or forgetting thresholds), `cacheRun_inv`,
 `caching_run_optimal` (a run that ends with an empty fringe ends with the optimum and a feasible solution of that value — the
 answer of the solver without cache), `cachePruneOk` (the placeholder `Ddo.C01.CachePruneOk`: a popped node refused by
 `must_explore` is not needed), `clear_layer_preserves`.
@@ -47,23 +48,23 @@ Contracts discharged from the diagram model for a relaxed compilation that consu
 with cache) — the soundness of the pruning by `_filter_with_cache` *inside* a compilation, relative to `CacheOk`; also
 `Ddo.Theta.cached_relaxed_ub` (C06 with cache).
 
-## What is stated, not proved (see the `def … : Prop` at the end)
+## What is not proved in this file (see the note before the non-vacuity section for where each item was closed)
 
-* `CompCRest`: the remaining fields of `CompC` for the diagram model consulting a cache: `ub` (needs "a node pruned by the
+* the remaining fields of `CompC` for the diagram model consulting a cache: `ub` (needs "a node pruned by the
   cache is never marked"), `fresh` (needs "the nodes of a layer that are not deleted have pairwise distinct states"),
   `sound` for a relaxed compilation with cache, and the whole contract for the *restricted* compilation when it is exact (it
   also records thresholds; same passes, `TInv` is only proved for relaxed compilations) — hence no closed theorem
-  "caching solver over the diagram model" in the style of `Ddo.C01.sequential_solver_correct`;
-* `AnyOrder`: the invariant for pops that are **not** best-first.  The potential-form argument breaks on
-  `cutset_node.ub = ub.min(cutset_node.ub)`: when the parent's bound was computed in a diagram cut by the cache it is only
+  "caching solver over the diagram model" in the style of `Ddo.C01.sequential_solver_correct` in this file (closed in
+  `Props/C09c.lean`);
+* (history) `AnyOrder`: the invariant for pops that are **not** best-first was left open here for the solver as it was,
+  whose `enqueue_cutset(ub)` capped the bound of every cut-set node by the bound of the processed node
+  (`cutset_node.ub = ub.min(cutset_node.ub)`): when the parent's bound was computed in a diagram cut by the cache it is only
   valid "modulo what the cache covers", and capping a child by it can kill the child's own claim while the covering node is
-  itself made prunable by a threshold of the parent's diagram.  With best-first pops the popped node's bound dominates every
-  live claim and the problem disappears.  An exhaustive search over **all** pop orders of ≈ 220 000 random knapsack instances
-  (merge = max capacity, so merged states coincide with exact ones; the models of this project composed: `compile` with
-  `useCache = true`, cache, fringe) found no wrong optimum; a proof would need the facts "an open sub-problem always has a
-  cache entry `≥` its value" and "a node that survives `_filter_with_cache` is strictly better than every open sub-problem
-  with its state", i.e. more than the potential form;
-* `Parallel`. -/
+  itself made prunable by a threshold of the parent's diagram.  Decided since: for that **pre-fix** solver optimality is
+  false for arbitrary pop orders (`Ddo.C09.anyOrderOpt_false`, `Props/C09c.lean`; finding D14); the code was repaired by
+  dropping the cap, and for the repaired solver — the one modelled here — the invariant holds for **every** pop order
+  (`processC_inv_any` has no hypothesis on the order; `Ddo.C09.caching_solver_correct`);
+* the parallel solver with the cache. -/
 set_option linter.unusedSectionVars false
 set_option linter.unusedVariables false
 namespace Ddo.C09
@@ -240,15 +241,15 @@ theorem bkOf_updateBest (st : SeqSt S) (o : DDOut S) : bkOf st.bestLb o.bestExac
 section
 variable (H : Nat → S → EInt) (opt : Int) (Sol : List Dec → Int → Prop) (Rg : Nat → Int → Prop)
 
-/-- finite runs of the caching sequential solver, abstract over the diagram: a turn pops a node `N` with the largest upper
-    bound (`hbf`; `rest` = what is left in the fringe, `fa` the new `first_active_layer`) and processes it — `must_explore`
+/-- finite runs of the caching sequential solver, abstract over the diagram: a turn pops **any** node `N` of the fringe
+    (`rest` = what is left in the fringe, `fa` the new `first_active_layer`) and processes it — `must_explore`
     answered by the cache `T`, the restricted compilation `r` (updates `rups`) and, if it is not exact, the relaxed one `x`
     (updates `xups`) meeting the contracts `CompC` —, or forgets thresholds (`clear_layer`). -/
 inductive CacheRun (dedup : Bool) : SeqSt S × CView S → SeqSt S × CView S → Prop
   | refl (s : SeqSt S) (T : CView S) : CacheRun dedup (s, T) (s, T)
   | turn {a : SeqSt S × CView S} (s : SeqSt S) (T : CView S) (N : SubP S) (rest : List (SubP S)) (fa : Nat)
       (r : DDOut S) (rups : List (S × Nat × Int × Bool)) (x : DDOut S) (xups : List (S × Nat × Int × Bool)) :
-      CacheRun dedup a (s, T) → s.fringe.Perm (N :: rest) → (∀ c ∈ rest, c.ub ≤ N.ub) →
+      CacheRun dedup a (s, T) → s.fringe.Perm (N :: rest) →
       (∀ w, r.bestExact = some w → ∃ p, r.bestExactSol = some p ∧ Sol p w ∧ w ≤ opt) →
       (r.isExact = true → CompC H opt Sol Rg N s.bestLb T r rups (s.updateBest r).bestLb) →
       (r.isExact = false → rups = []) →
@@ -273,14 +274,14 @@ theorem popped_fields (s : SeqSt S) (N : SubP S) (rest : List (SubP S)) (fa : Na
   dsimp only
   split <;> exact ⟨rfl, rfl, rfl⟩
 
-/-- **the invariant holds along every run** -/
+/-- **the invariant holds along every run**, whatever nodes are popped -/
 theorem cacheRun_inv (dedup : Bool)
     {a b : SeqSt S × CView S} (hrun : CacheRun H opt Sol Rg dedup a b)
     (ha : CInvC H opt Sol Rg a.1.fringe a.2 a.1.bestLb a.1.bestSol) :
     CInvC H opt Sol Rg b.1.fringe b.2 b.1.bestLb b.1.bestSol := by
   induction hrun with
   | refl s T => exact ha
-  | turn s T N rest fa r rups x xups _ hperm hbf hrs hr hrups hx ih =>
+  | turn s T N rest fa r rups x xups _ hperm hrs hr hrups hx ih =>
     obtain ⟨f1, f2, f3⟩ := popped_fields s N rest fa
     have hI : CInvC H opt Sol Rg (N :: (C01.popped s N rest fa).fringe) T (C01.popped s N rest fa).bestLb
         (C01.popped s N rest fa).bestSol := by
@@ -290,7 +291,7 @@ theorem cacheRun_inv (dedup : Bool)
     have hue2 : ∀ o o' : DDOut S, (((C01.popped s N rest fa).updateBest o).updateBest o').bestLb =
         ((s.updateBest o).updateBest o').bestLb := by
       intro o o'; rw [← bkOf_updateBest, ← bkOf_updateBest, ← bkOf_updateBest, ← bkOf_updateBest, f2]
-    exact processC_inv_any H opt Sol Rg dedup (C01.popped s N rest fa) T N r rups x xups hI (by rw [f1]; exact hbf) hrs
+    exact processC_inv_any H opt Sol Rg dedup (C01.popped s N rest fa) T N r rups x xups hI hrs
       (fun h => by rw [f2, hue]; exact hr h) hrups (fun h => by rw [hue, hue2]; exact hx h)
   | forget s T T' _ hsub ih => exact cinvC_forget H opt Sol Rg _ T T' _ _ hsub (ih ha)
 
@@ -325,18 +326,17 @@ theorem clear_layer_preserves (F : List (SubP S)) (c c' : Cache S) (d : Nat) (lb
 
 end
 
-/-! ## stated, not proved -/
+/-! ## what this file left open, and where it was closed
 
-/-- Stated, not proved: the diagram model consulting a cache meets the remaining fields of `CompC` (`ub`, `fresh`, `sound`
-    of a relaxed compilation; the contract of an exact restricted compilation).  Proved: `theta`, `exact`, `cover` for relaxed
-    compilations (`theta_contract_of_model`, `exact_contract_of_model`, `cover_contract_of_model`). -/
-/- superseded: proved in `Props/C09c.lean` (`compC_relaxed_of_model`, `compC_restricted_of_model`) -/
-def CompCRest : Prop := True
-/-- Stated, not proved: `processC_inv` without the best-first hypothesis `hbf` (arbitrary `SubProblemRanking`). -/
-/- superseded: decided in `Props/C09c.lean` — soundness holds (`caching_solver_anyorder_sound`), optimality is false (`anyOrderOpt_false`) -/
-def AnyOrder : Prop := True
-/-- Stated, not proved: the parallel solver with the cache (nodes in hand of other threads, interleaved updates). -/
-def Parallel : Prop := True
+* the remaining fields of `CompC` for the diagram model consulting a cache (`ub`, `fresh`, `sound` of a relaxed compilation;
+  the contract of an exact restricted compilation; here: `theta`, `exact`, `cover` for relaxed compilations —
+  `theta_contract_of_model`, `exact_contract_of_model`, `cover_contract_of_model`): proved in `Props/C09c.lean`
+  (`compC_relaxed_of_model`, `compC_restricted_of_model`);
+* arbitrary pop orders (an arbitrary `SubProblemRanking`): decided in `Props/C09c.lean` — false for the pre-fix solver with
+  the capped `enqueue_cutset(ub)` (`anyOrderOpt_false`, finding D14), true for the repaired solver
+  (`caching_solver_correct`, `anyOrderOptFixed_true`);
+* the parallel solver with the cache (nodes in hand of other threads, interleaved updates): no statement here — the
+  parallel system is not modelled with a cache. -/
 
 /-! ## non-vacuity -/
 namespace Example
